@@ -47,6 +47,10 @@ def observe(setup, expr, n):
         except Exception as ex:             # the preparation (not the call under test) failed: nothing to observe
             return "setup-failed", ex, 0, []
     handle = pyimpspec.progress.register(cb)
+    # some analyses draw unseeded random numbers (the initial values of the Bayesian Hilbert transform attempts): fix NumPy's global
+    # generator per call so that a run -- and the replay of a reported call -- is reproducible
+    import zlib
+    np.random.seed((zlib.crc32(expr.encode()) + n) & 0xFFFFFFFF)
     try:
         eval(expr, env)
         return "completed", None, len(notes), bad
